@@ -11,6 +11,7 @@ SPEC = {
         "every observation is made under a matrix of compiler configurations: default, relaxed_re_syntax, error_on_slow_pattern+error_on_slow_loop, linters (rule name, allowed tags, required metadata), ignore_module+ban_module, condition_optimization+colours+narrow width+max_warnings; each generated source runs under the default and two others",
         "that an aborted rule carries an error is tied to the code by two regenerated obligations: cst2ast.rs has exactly one Abort site that neither follows an ERROR node nor an errors.push (Builder::begin's kind test), and the digest of (grammar productions, per-builder-function begin/end/expect/peek/call sequence) equals the reviewed pin in Compiler/CstAgreement.v; a change of either side must be reviewed and re-pinned",
         "line and column of every label of every error and warning (serialized form) are compared with an independent computation from the byte span: K pins what the report builder does (a line ends at \\n; \\r\\n counts once; a lone \\r is not a line end), S accepts that or the universal-newline reading; the diagnostic's own line/column must be its first label's and the `-->` of the rendered text must be a label's",
+        "labels are checked against the text they refer to: the submitted source, or the included file named by the label's origin (bounds, character boundaries, line/column)",
         "accounting is per rule: every RULE_DECL node of the CST must be built, or ignored, or overlapped by the label of an error",
         "rule accounting is proved over a model whose arms (build_ast's Ok/Abort/MaxDepthReached arms, c_items' Err arm, c_rule's tolerated-error arms) are regenerated from the source; that an aborted rule carries at least one error is a hypothesis of ast_no_rule_lost, evaluated by S on every input (accepted without errors => every declared rule is built or ignored)",
         "the UTF-8 model follows the maximal-subpart rule of std::str::from_utf8; the compiler uses bstr::to_str, which K compares through the span of the reported E032 label",
@@ -28,7 +29,11 @@ RULE = ("every case runs Compiler::new().add_source(bytes), Display/title/labels
         "fix spans several lines, regexps that relaxed_re_syntax repairs (literal braces, unknown escapes) followed by a genuine error "
         "with multi-byte characters around, and a systematic sweep: every token of 15 small rules covering every production, deleted "
         "and duplicated in turn; sources with 2-5 rules of mixed fate (fine / compile error / syntax error / depends on an ignored "
-        "module / too deep) in every order; a third of the sources rewritten with CRLF, lone CR or mixed line endings. Every generated source runs under 3 of 6 compiler configurations. Non-trivial: >= 10 bytes; "
+        "module / too deep) in every order; including sources (an include directory per case with files of every fate: fine, compile "
+        "error, syntax error, warning, invalid UTF-8, empty, nested, self-including, mutually including, missing, longer than the "
+        "including source) with rules of mixed fate before and after the include statements; every pattern modifier and pairs of "
+        "modifiers on text patterns of 0..4 bytes with arguments at their boundaries, one-byte hex patterns, regexps matching the "
+        "empty string (plus: exchanging base64 and base64wide must not change the decision); a third of the sources rewritten with CRLF, lone CR or mixed line endings. Every generated source runs under 3 of 6 compiler configurations. Non-trivial: >= 10 bytes; "
         "distinct by source bytes.")
 
 
@@ -44,12 +49,16 @@ def classify(case):
         return "C09:no-answer-in-time"
     if o.get("panicked"):
         msg = re.sub(r"\b\d+\b", "N", o["panicked"]).split(";")[0][:120]
+        if str(case.get("includes") or "").startswith("I:1:"):
+            msg += ":include-dir-name-not-utf8"
         return "C09:panic:" + msg
     v = " ".join(case.get("violations", []))
     if "neither built, nor ignored" in v:
         return "C09:rule-dropped-silently:" + ("ast-depth-limit" if o.get("max_depth", 0) >= 3000 else ("no-error-at-all" if o.get("nerr", 1) == 0 else "errors-elsewhere"))
     if "line/column" in v:
         return "C09:line-column-does-not-designate-the-span-start"
+    if "base64 and base64wide exchanged" in v:
+        return "C09:base64-and-base64wide-decide-differently"
     if "invalid regular expression" in v:
         return "C09:regexp-error-location-outside-the-regexp:" + str(case.get("cfg_name"))
     if "label span" in v:
@@ -75,7 +84,8 @@ def replay(d, drv):
     hx = case.get("source_hex")
     if not hx:
         print(json.dumps(d, indent=1)[:4000]); return 0
-    rc, out, _ = run_harness(drv, "c09", ["--replay-hex", hx, "--cfg", case.get("cfg", 0), "--out", os.path.join(drv.CACHE, "cases", "C09-replay")])
+    extra = ["--inc", case["includes"]] if case.get("includes") else []
+    rc, out, _ = run_harness(drv, "c09", ["--replay-hex", hx, "--cfg", case.get("cfg", 0)] + extra + ["--out", os.path.join(drv.CACHE, "cases", "C09-replay")])
     print(out[-4000:])
     return 1 if "VIOLATED" in out else 0
 
